@@ -94,16 +94,16 @@ static void child_main (void) {
 			if (err) { ecode = p_error_get_native_code (err); p_error_free (err); }
 			{ int v = -1; if (shraw[h]) sem_getvalue (shraw[h], &v); in_op = 0; c_say ("D %d %d %d\n", sh[h] ? 1 : 0, v, ecode); }
 		} else if ((!strcmp (op, "acq") || !strcmp (op, "rel") || !strcmp (op, "own") || !strcmp (op, "free")) && !sh[h]) { in_op = 0; c_say ("D 0 -1\n"); }
-		else if (!strncmp (op, "shm", 3) && strcmp (op, "shmnew") && !mh[h]) { in_op = 0; c_say ("D 0 -1\n"); }
+		else if (!strncmp (op, "shm", 3) && strncmp (op, "shmnew", 6) && !mh[h]) { in_op = 0; c_say ("D 0 -1\n"); }
 		else if (!strcmp (op, "acq")) { pboolean r = p_semaphore_acquire (sh[h], NULL); int v = -1; sem_getvalue (shraw[h], &v); in_op = 0; c_say ("D %d %d\n", r ? 1 : 0, v); }
 		else if (!strcmp (op, "rel")) { pboolean r = p_semaphore_release (sh[h], NULL); int v = -1; sem_getvalue (shraw[h], &v); in_op = 0; c_say ("D %d %d\n", r ? 1 : 0, v); }
 		else if (!strcmp (op, "own")) { p_semaphore_take_ownership (sh[h]); in_op = 0; c_say ("D 1 0\n"); }
 		else if (!strcmp (op, "free")) { p_semaphore_free (sh[h]); sh[h] = NULL; shraw[h] = NULL; in_op = 0; c_say ("D 1 0\n"); }
 		else if (!strcmp (op, "val")) { int v = -1; if (shraw[h]) sem_getvalue (shraw[h], &v); in_op = 0; c_say ("D %d %d\n", shraw[h] ? 1 : 0, v); }
-		else if (!strcmp (op, "shmnew")) {
+		else if (!strcmp (op, "shmnew") || !strcmp (op, "shmnewro")) {      /* (shmnewro: the handle is asked for with read-only access) */
 			PError *err = NULL; int ecode = 0;
 			snprintf (name, sizeof name, "%s_%s", prefix, a2);
-			mh[h] = p_shm_new (name, (psize) atol (a3), P_SHM_ACCESS_READWRITE, &err);
+			mh[h] = p_shm_new (name, (psize) atol (a3), op[6] ? P_SHM_ACCESS_READONLY : P_SHM_ACCESS_READWRITE, &err);
 			if (err) { ecode = p_error_get_native_code (err); p_error_free (err); }
 			in_op = 0; c_say ("D %d %ld %d\n", mh[h] ? 1 : 0, mh[h] ? (long) p_shm_get_size (mh[h]) : -1L, ecode);
 		} else if (!strcmp (op, "shmsize")) { in_op = 0; c_say ("D 1 %ld\n", (long) p_shm_get_size (mh[h])); }
@@ -172,12 +172,14 @@ static int pending_inj[16];      /* the next call of process p runs with an inje
 static void emit_call (int p, const char *cmd) {
 	char op[32], a2[64] = "0", a3[64] = "0", a4[64] = ""; int h = 0;
 	sscanf (cmd, "%31s %d %63s %63s %63s", op, &h, a2, a3, a4);
+	if (!strcmp (op, "shmnewro")) op[6] = 0;      /* the same call as far as the specification goes: which access the handle asked for does not change what a segment is */
 	vt_emit ("{\"e\":\"call\",\"p\":%d,\"h\":%d,\"op\":\"%s\",\"a\":%ld,\"b\":%ld,\"create\":%d,\"inj\":%d}", p, p * 10 + h, op, atol (a2), atol (a3), !strcmp (a4, "create") ? 1 : 0, pending_inj[p]);
 	pending_inj[p] = 0;
 }
 static void emit_done (int p, const char *cmd, const char *dline) {
 	char op[32]; int h = 0; long r1 = 0, r2 = 0, r3 = 0;
 	sscanf (cmd, "%31s %d", op, &h);
+	if (!strcmp (op, "shmnewro")) op[6] = 0;
 	sscanf (dline, "D %ld %ld %ld", &r1, &r2, &r3);
 	vt_emit ("{\"e\":\"ret\",\"p\":%d,\"h\":%d,\"op\":\"%s\",\"ok\":%ld,\"val\":%ld,\"errno\":%ld}", p, p * 10 + h, op, r1, r2, r3);
 }
